@@ -318,7 +318,9 @@ def _w_node(out, node, ch):
         # string-valued content is permitted when the bytes form a string the format can express
         opts = ["bin"]
         try_s = data.decode("latin-1")
-        if data and not try_s.endswith("@") and (try_s in PRIMARY_INDEX or try_s in SECONDARY_INDEX or _packable(try_s)):
+        at = try_s.find("@")
+        jid_like = at >= 1 and at < len(try_s) - 1
+        if data and not try_s.endswith("@") and (try_s in PRIMARY_INDEX or try_s in SECONDARY_INDEX or _packable(try_s) or jid_like):
             opts.append("string")
         if opts[ch.pick("content", len(opts))] == "bin":
             _w_raw(out, data, ch)
@@ -329,12 +331,19 @@ def _w_node(out, node, ch):
             elif try_s in SECONDARY_INDEX:
                 forms.append("tok2")
             forms += _packable(try_s)
+            if jid_like:
+                forms.append("jid")
             f = forms[ch.pick("cstr", len(forms))]
             if f == "tok":
                 out.append(PRIMARY_INDEX[try_s])
             elif f == "tok2":
                 i = SECONDARY_INDEX[try_s]
                 out += bytes([DICT_0 + i // 256, i % 256])
+            elif f == "jid":
+                # a JID pair is a string item like any other: user and server as strings of their own
+                out.append(JID_PAIR)
+                _w_string(out, try_s[:at], ch, allow_jid=False)
+                _w_string(out, try_s[at + 1:], ch, allow_jid=False)
             else:
                 _w_packed(out, try_s, f)
 
